@@ -314,7 +314,7 @@ PREFIXES = [b"", b"--- a/file\n+++ b/file\n@@ -1 +1 @@\n", b"x\n", b"\n", b"keep
 
 LONG_SHAPES = ["late", "end", "end-unterminated", "unterminated-straddle", "unterminated-nomarker",
                "start", "middle", "nomarker-then-markers", "exact", "exact-marker-end", "double-late",
-               "nearmiss", "two-long-a", "two-long-b", "both-sides", "crlf-late", "kept-sandwich"]
+               "nearmiss", "two-long-a", "two-long-b", "both-sides", "crlf-late", "kept-sandwich", "late-then-id"]
 
 
 def p_long(r, b, shape, k=0, pre=0, mode="line"):
@@ -371,6 +371,9 @@ def p_long(r, b, shape, k=0, pre=0, mode="line"):
         body = fill(r, b + x) + MARK + fill(r, t) + b"\n" + fill(r, b + z) + b"\nend\n"
     elif shape == "two-long-b":      # long plain line, then a long marker line
         body = fill(r, b + z) + b"\n" + fill(r, b + x) + MARK + fill(r, t) + b"\nend\n"
+    elif shape == "late-then-id":    # a long marker line, then short marker lines (scan state carried over)
+        body = (fill(r, b + x) + MARK + fill(r, t) + b"\n$NetBSD: patch-aa,v 1.1 2024/01/01 $\nkept\n"
+                + fill(r, z) + b" $NetBSD$\nlast\n")
     elif shape == "kept-sandwich":   # short and long kept lines alternate: order of the kept bytes
         body = b"first\n" + fill(r, b + x) + b"\nmiddle\n" + fill(r, b + z) + b"\nlast\n"
     elif shape == "both-sides":      # marker early and again late in the same line
